@@ -1475,6 +1475,7 @@ func main() {
 		}
 		run.Count("workers_ok", 1)
 	})
+	os.RemoveAll(tmp) // run.Finish / BROKEN exit through os.Exit: deferred calls do not run
 	// in-process results (vectors)
 	merge(run, &res)
 	brokenMsgs = append(brokenMsgs, res.Broken...)
